@@ -280,10 +280,13 @@ package annotations
 //@   loop 5 invariant forall t string, fname string, p token.Pos :: mutHasP(mutables, t, fname, p) <==> (mfilesHit($seq1, $i1, t, fname, p, currentPkgPath) || mdeclsHit(file, $i3, t, fname, p, currentPkgPath) || mspecsHit(genDecl, $i4, t, fname, p, currentPkgPath) || (t == typeName && docHit(1, doc, $i, "", currentPkgPath) && typeis(typeSpec.Type, *ast.StructType) && fieldsHit(cast(typeSpec.Type, *ast.StructType), len(cast(typeSpec.Type, *ast.StructType).Fields.List), fname, p)))
 
 // queries for the @implements loaders (read-only)
+// one query per @implements annotation with a resolved qualifier: (resolved package path, interface name)
 //@ func PackageAnnotations.ToInterfaceQuery
-//@   props C10
+//@   props C05 C10
 //@   assigns nothing
+//@   ensures forall pth string, n string :: (exists q int :: 0 <= q && q < len(result) && result[q].PackageName == pth && result[q].InterfaceName == n) <==> (exists k int :: 0 <= k && k < len(p.ImplementsAnnotations) && !p.ImplementsAnnotations[k].PackageNotFound && p.ImplementsAnnotations[k].PackageFullPath == pth && p.ImplementsAnnotations[k].InterfaceName == n)
 //@   loop 1 frame
+//@   loop 1 invariant forall pth string, n string :: (exists q int :: 0 <= q && q < len(result) && result[q].PackageName == pth && result[q].InterfaceName == n) <==> (exists k int :: 0 <= k && k < $i && !input[k].PackageNotFound && input[k].PackageFullPath == pth && input[k].InterfaceName == n)
 //@ func PackageAnnotations.ToTypeQuery
 //@   props C10
 //@   assigns nothing
